@@ -16,7 +16,20 @@ def c01(ctx, spec):
         ctx.run_sharded('c01_direct_d%d' % d, n // 3, args=['--maxext', 4, '--maxops', 4, '--zero', 3], shards=4)
     ctx.extra['not_compilable_on_pinned_tree'] = ['strided/dropped/taked/reversed() const& of D>1 views (skipped by construction)']
 
+# ---------------------------------------------------------------------------------------------- C02
+def c02(ctx, spec):
+    ctx.build([dict(name='c02_d%d' % d, src='harness/c02_iter.cpp', cfg='asan', defs=['C02_D=%d' % d]) for d in (1, 2, 3, 4)])
+    n = T(ctx, 5000, 250000)
+    for d in (1, 2, 3, 4):
+        ctx.run_sharded('c02_d%d' % d, n, args=['--maxext', 5, '--maxops', 5, '--walk', T(ctx, 30, 60)], shards=4)
+
 REGISTRY = {
+    'C02': dict(fn=c02, level='exploration',
+                rule='views from random view programs (as C01); on each final view: random walks (30 steps quick / 60 thorough) over 3 iterator variables with integer position shadows for 4 iterator families '
+                     '(begin()/end(), cbegin()/cend(), elements() mutable and const): ++ -- post++ post-- += -= =b+n =b-n assign copy compare [] inc-dec dec-inc; after EVERY step each dereferenceable variable is '
+                     'dereferenced and must designate the model element/sub-view of its position; differences/comparisons vs integers; const-vs-mutable equality; front/back/elements()[k]. '
+                     'distinct = hash(view program signature, walk op sequence); non-trivial = walk had >=1 backward move and >=1 assignment on a view with >=2 positions',
+                assumptions=['position model: integer per iterator variable', 'table model of the view (C01) is the specification of what a position designates']),
     'C01': dict(fn=c01, level='exploration',
                 rule='random view programs (root D 1..4, extents 0..6, <=6 (quick) / <=10 (thorough) operations from 19 kinds incl. call syntax, 3 value categories, 4 root kinds); '
                      'after EVERY operation the view is compared with a table model built from the documented index mappings: sizes/size/num_elements/is_empty/extensions/strides and, '
